@@ -414,6 +414,11 @@ def firstNonOp : List Node → Option Node
   | [] => none
   | p :: ps => if isOperator p then firstNonOp ps else some p
 
+/-- the parts after the first one that is not an operator -/
+def restAfterFirstNonOp : List Node → List Node
+  | [] => []
+  | p :: ps => if isOperator p then restAfterFirstNonOp ps else ps
+
 /-- the cwd used for the parts of a list -/
 def effectiveCwdS (resolveCd : String → String → String) (parts : List Node) (cwd : String) (remote : Bool) : String :=
   if remote then cwd else
@@ -521,7 +526,7 @@ def aNode : Node → String → Bool → Decision
     let r := combine ds
     if r.action = .allow then ⟨.allow, joinComma (ds.map (·.reason))⟩ else r
   | .list parts, cwd, remote =>
-    let ds := aListParts parts (effectiveCwd w parts cwd remote) remote
+    let ds := aListPartsCd parts cwd (effectiveCwd w parts cwd remote) remote
     let r := combine ds
     if r.action = .allow then ⟨.allow, joinComma (ds.map (·.reason))⟩ else r
   | .ifN c t e rs, cwd, remote =>
@@ -569,6 +574,14 @@ def aListParts : List Node → String → Bool → List Decision
   | n :: ns, cwd, remote =>
     if isOperator n then aListParts ns cwd remote
     else aNode n cwd remote :: aListParts ns cwd remote
+
+/-- the parts of a list as `_analyze_node` judges them: the first part in `cwd0` – a leading `cd` still runs in the old
+    directory – and the later ones in `cwd`, the directory the `cd` leads to -/
+def aListPartsCd : List Node → String → String → Bool → List Decision
+  | [], _, _, _ => []
+  | n :: ns, cwd0, cwd, remote =>
+    if isOperator n then aListPartsCd ns cwd0 cwd remote
+    else aNode n cwd0 remote :: aListParts ns cwd remote
 
 def aOptNode : Option Node → String → Bool → List Decision
   | none, _, _ => []
